@@ -110,7 +110,7 @@ func Prop() *core.Prop {
 		Require: []string{
 			"transfers", "carrier_iq", "carrier_message", "dir_opener_to_acceptor", "dir_acceptor_to_opener", "bidirectional",
 			"eof_after_close", "data_packets_on_wire", "concurrent_stream_cases",
-			"inject_unknown_sid", "inject_closed_sid", "inject_bad_seq", "inject_bad_base64", "inject_oversize",
+			"inject_unknown_sid", "inject_no_sid", "inject_closed_sid", "inject_bad_seq", "inject_bad_base64", "inject_oversize",
 			"refused_opens", "raw_receiver_transfers", "raw_wrap_runs",
 			"close_fail_cases", "close_answered_cases", "post_close_contract_checked", "close_answered_while_write-blocked", "close_answered_while_read-blocked", "local_close_failed_timeout", "local_close_failed_write-fails", "close_concurrent_with_inbound_data", "packets_after_failed_or_concurrent_close", "serve_loop_alive_after_failed_close",
 			"listener_cases", "listener_expects_given_up", "listener_expect_took_precedence", "listener_expect_replaced", "listener_closed_while_open_pending",
